@@ -356,8 +356,9 @@ Definition step_proc (s : bc) (e : event) : option bc :=
       end
   | PDieClose, EConnClose _ => Some (set_pp (set_dying s) PDone)
   (* token timeout while waiting for a token *)
-  | PSubW _ _, EDie _ KClient | PUnsubW _ _, EDie _ KClient
-  | PPub1W _ _, EDie _ KClient | PPub2W _, EDie _ KClient => Some (set_pp s PDieClose)
+  (* a token wait times out only when no token is there to take *)
+  | PSubW _ _, EDie _ KClient | PUnsubW _ _, EDie _ KClient => guard (tsub s =? 0) (set_pp s PDieClose)
+  | PPub1W _ _, EDie _ KClient | PPub2W _, EDie _ KClient => guard (tpub s =? 0) (set_pp s PDieClose)
   | _, _ => None
   end.
 
@@ -366,7 +367,7 @@ Definition step_proc (s : bc) (e : event) : option bc :=
 Definition step_deq (s : bc) (e : event) : option bc :=
   match dp s, e with
   | DToken, EDeqCall _ => match take_deq s with Some s1 => Some (set_dp s1 DWait) | None => None end
-  | DToken, EDie _ KClient => Some (set_dp s DDieClose)            (* token timeout *)
+  | DToken, EDie _ KClient => guard (tdeq s =? 0) (set_dp s DDieClose)   (* token timeout: only without a token *)
   | DWait, EDeqRet _ QErr => Some (set_dp s (DDieLog KBackend))
   | DWait, EDeqRet _ QNone => Some (set_dp s DDone)
   | DWait, EDeqRet _ (QMsg m ba) =>
